@@ -56,4 +56,23 @@ var properties = map[string]*Property{
 			"probe set is finite (derived from the expression pool); equality is on (source, rule id, version hash, captured values)",
 		},
 	},
+	"C07": {
+		ID: "C07",
+		Harnesses: []Harness{{
+			Name: "repo-sched", Property: "C07", Pkg: "./internal/rules", Test: "TestVerifC07",
+			Dirs: []string{"internal/rules"}, Files: []string{"zz_verif_common_test.go", "zz_verif_c07_test.go"},
+			Race: true,
+			Instrument: []string{"internal/rules/repository_impl.go:locks+yields", "internal/x/radixtree/tree.go:entry"},
+			Quick:    Tier{Runs: 4000, BudgetS: 100},
+			Thorough: Tier{Runs: 250000, BudgetS: 1500},
+		}},
+		Rule: "one case = one seeded schedule of 2-3 writer tasks (one per source, 1-4 create/update/delete operations each through the real rule-set processor) and 1-2 reader tasks (2-6 lookups each) on the real repository compiled from a lock-shimmed, yield-instrumented copy of repository_impl.go under the race detector; the recorded history plus a final lookup sweep is checked for linearizability (porcupine) against the same code applied sequentially. Non-trivial = a lookup or another writer overlapped a write; distinct = distinct (task, yield-site) schedule signatures.",
+		Real: []string{"rules.repository (locks replaced by scheduler shims, yield points inserted)", "radixtree.Tree (yield at function entries)", "rules.ruleSetProcessor", "rules.ruleFactory"},
+		Stub: []string{"mechanism catalogue (constant authenticator)", "request context", "sync.Mutex/RWMutex -> simsync shims taking the real lock after the scheduler granted it"},
+		Assumptions: []string{
+			"each source has one provider applying its changes sequentially; different sources are changed concurrently",
+			"interleavings are explored at lock operations and inserted yield points; preemption between two plain memory accesses is covered by the happens-before race detector, not by schedule exploration",
+			"porcupine timeouts (30 s) are counted as inconclusive, never reported",
+		},
+	},
 }
